@@ -618,8 +618,73 @@ pub fn readers_cmd(args: &[String]) {
 pub fn threads_cmd(_args: &[String]) {
     unimplemented!()
 }
-pub fn util_cmd(_args: &[String]) {
-    unimplemented!()
+/// util --in cases.ndjson --out events.ndjson  (C18, feature `utils`)
+pub fn util_cmd(args: &[String]) {
+    use asefile::util::{extrude_border, to_indexed_image, MappingOptions, PaletteMapper};
+    use image::RgbaImage;
+    let input = arg(args, "--in").unwrap_or("-");
+    let mut out = Out::new(arg(args, "--out").unwrap_or("-"));
+    let px_of = |v: &Value| -> Vec<u8> { v.as_array().unwrap().iter().flat_map(|p| p.as_array().unwrap().iter().map(|b| b.as_u64().unwrap() as u8)).collect() };
+    for line in read_lines(input) {
+        if line.trim().is_empty() {
+            continue;
+        }
+        let c: Value = serde_json::from_str(&line).unwrap();
+        PANIC_INFO.with(|p| p.borrow_mut().take());
+        match c["kind"].as_str() {
+            Some("extrude") => {
+                let (w, h) = (c["w"].as_u64().unwrap() as u32, c["h"].as_u64().unwrap() as u32);
+                let img = RgbaImage::from_raw(w, h, px_of(&c["px"])).unwrap();
+                let r = catch_unwind(AssertUnwindSafe(|| extrude_border(img)));
+                let (o, panic) = match r {
+                    Ok(o) => (json!({"w": o.width(), "h": o.height(), "px": o.pixels().map(|p| p.0).collect::<Vec<_>>()}), String::new()),
+                    Err(_) => (json!({"w": 0, "h": 0, "px": []}), PANIC_INFO.with(|p| p.borrow_mut().take()).unwrap_or_default()),
+                };
+                out.ev(&json!({"ev": "extrude", "w": w, "h": h, "px": c["px"], "out": o, "panic": panic}));
+            }
+            Some("map") => {
+                use crate::prog::*;
+                let first = c["first"].as_u64().unwrap() as u32;
+                let entries: Vec<PalE> = c["entries"].as_array().unwrap().iter().map(|e| {
+                    let v: Vec<u8> = e.as_array().unwrap().iter().map(|b| b.as_u64().unwrap() as u8).collect();
+                    PalE { flags: 0, rgba: [v[0], v[1], v[2], 255], name: vec![] }
+                }).collect();
+                let n = entries.len() as u32;
+                let mut p = Program {
+                    hdr: Hdr { w: 1, h: 1, depth: 32, ..Default::default() },
+                    frames: vec![FrameP { dur: 1, chunks: vec![Chunk::Pal(PalC { total: U32S(first + n), first: U32N(first), last: U32N(first + n - 1), entries })], ..Default::default() }],
+                    trailing: vec![],
+                };
+                p.normalize();
+                let bytes = encode(&p).bytes;
+                let failure = c["failure"].as_u64().unwrap() as u8;
+                let transparent = c["transparent"].as_array().unwrap().first().map(|t| t.as_u64().unwrap() as u8);
+                let queries: Vec<Vec<u8>> = c["queries"].as_array().unwrap().iter().map(|q| q.as_array().unwrap().iter().map(|b| b.as_u64().unwrap() as u8).collect()).collect();
+                let (iw, ih) = (c["image"]["w"].as_u64().unwrap() as u32, c["image"]["h"].as_u64().unwrap() as u32);
+                let ipx = px_of(&c["image"]["px"]);
+                let r = catch_unwind(AssertUnwindSafe(|| {
+                    let ase = AsepriteFile::read(&bytes[..]).expect("palette host must load");
+                    let mapper = PaletteMapper::new(ase.palette().expect("palette"), MappingOptions { failure, transparent });
+                    let lookups: Vec<u8> = queries.iter().map(|q| mapper.lookup(q[0], q[1], q[2], q[3])).collect();
+                    let img = RgbaImage::from_raw(iw, ih, ipx.clone()).unwrap();
+                    let ((dw, dh), data) = to_indexed_image(img, &mapper);
+                    (lookups, dw, dh, data)
+                }));
+                let mut ev = json!({"ev": "map", "first": first, "entries": c["entries"], "failure": failure, "transparent": c["transparent"],
+                    "queries": c["queries"], "image": c["image"], "lookups": [], "indexed": {"dims": [0, 0], "data": []}, "panic": ""});
+                match r {
+                    Ok((lookups, dw, dh, data)) => {
+                        ev["lookups"] = json!(lookups);
+                        ev["indexed"] = json!({"dims": [dw, dh], "data": data});
+                    }
+                    Err(_) => ev["panic"] = json!(PANIC_INFO.with(|p| p.borrow_mut().take()).unwrap_or_default()),
+                }
+                out.ev(&ev);
+            }
+            _ => {}
+        }
+    }
+    out.flush();
 }
 pub fn decode_cmd(_args: &[String]) {
     unimplemented!()
